@@ -19,8 +19,9 @@ import (
 )
 
 type replay struct {
-	Cfg   sw.SysOpts `json:"cfg"`
-	Trace []string   `json:"trace"`
+	Cfg     sw.SysOpts `json:"cfg"`
+	Trace   []string   `json:"trace"`
+	RtspSub *rsCase    `json:"rtsp_sub,omitempty"`
 }
 
 func isFrame(k string) bool { return k == "key" || k == "inter" || k == "aac" || k == "g711" }
@@ -359,15 +360,25 @@ func main() {
 	r := vk.Start("C02", "model_checking")
 	lalenv.Quiet()
 	world.SyncQueues()
-	r.Rule("states = distinct canonical fingerprints reached by event sequences over {P(metasdf|vsh|vsh2|key|inter|ash|aac), J(rtmp|flv|ts), L, PubLeave, PubArrive} with a well-formed publisher, per GOP-cache configuration; every transition replays its prefix on a fresh server; the oracle is the reference prologue/GOP model. distinct_nontrivial = states")
+	r.Rule("states = distinct canonical fingerprints reached by event sequences over {P(metasdf|vsh|vsh2|key|inter|ash|aac), J(rtmp|flv|ts), L, PubLeave, PubArrive} with a well-formed publisher, per GOP-cache configuration; every transition replays its prefix on a fresh server; the oracle is the reference prologue/GOP model; plus the RTSP-consumer join-point enumeration. distinct_nontrivial = states")
 	r.Assume("publishers are well formed: frames only after their sequence header, inter frames only after a key frame of the same publisher (lal's stated assumption for streams that start without a key frame)",
 		"subscriber write queues forced to 0; merge-write off (C01 covers it)",
 		"a GOP cut by the per-GOP cap may keep cap or cap+1 entries (the statement does not say whether the key frame counts)",
-		"RTSP consumers are covered in C06/C07-style checks, not here")
+		"RTSP consumers: a separate enumeration (rtspsub.go) joins an interleaved RTSP player at every instant of a fixed two-GOP script of an RTSP publisher (between any two RTP packets, also inside a fragmented key frame) and of an RTMP publisher, AVC / HEVC / audio-only, and demands SDP before media, a first video packet that begins a key frame, video starting at the next key frame, and no holding back without video")
 	mk := func(o sw.SysOpts) func() seqx.Sys { return func() seqx.Sys { return sw.NewSys(o, check) } }
 	if r.ReplayIn != "" {
 		var rp replay
 		r.LoadReplay(&rp)
+		if rp.RtspSub != nil {
+			vs, err := rsRun(*rp.RtspSub)
+			if err != nil {
+				r.Violation("infra/rtsp-sub", err.Error(), rp)
+			}
+			for _, v := range vs {
+				r.Violation(v.key, v.what, rp)
+			}
+			r.Finish()
+		}
 		s, vs, err := seqx.Run(seqx.Config{New: mk(rp.Cfg)}, rp.Trace)
 		if err != nil {
 			r.Violation("infra/replay", err.Error(), rp)
@@ -389,10 +400,10 @@ func main() {
 		c := c
 		st := seqx.Explore(seqx.Config{New: mk(c), MaxDepth: depth, Workers: 16, OutOfTime: r.OutOfTime,
 			OnViolation: func(tr []string, v seqx.Viol) {
-				r.Violation(v.Key, fmt.Sprintf("[%s] after %s: %s", c.Name, strings.Join(tr, " "), v.What), replay{c, tr})
+				r.Violation(v.Key, fmt.Sprintf("[%s] after %s: %s", c.Name, strings.Join(tr, " "), v.What), replay{Cfg: c, Trace: tr})
 			},
 			OnInfra: func(tr []string, err error) {
-				r.Violation("infra/hang-or-nondeterminism", fmt.Sprintf("[%s] %v: %v", c.Name, tr, err), replay{c, tr})
+				r.Violation("infra/hang-or-nondeterminism", fmt.Sprintf("[%s] %v: %v", c.Name, tr, err), replay{Cfg: c, Trace: tr})
 			},
 			OnState: func(d int, fp string, tr []string) {
 				r.Class(c.Name + "|" + fp)
@@ -414,5 +425,13 @@ func main() {
 	r.AddTraces(execs)
 	r.Cov("per_config", per)
 	r.Cov("max_depth", depth)
+	if !r.OutOfTime() {
+		n := rsPhase(r)
+		r.Eval(n)
+		r.AddTraces(int64(n))
+		r.Cov("rtsp_sub_cases", n)
+	} else {
+		r.NotExhaustive("the RTSP-consumer enumeration was not run (time budget)")
+	}
 	r.Finish()
 }
